@@ -12,3 +12,4 @@ import Librfn.Props.C13
 import Librfn.Props.C14
 import Librfn.Props.C10
 import Librfn.Props.C04
+import Librfn.Props.C11
